@@ -239,6 +239,10 @@ def run_program(prog: dict) -> dict:
                 tab = listing(getattr(world.invs[o], api[6:])())
                 loop.rec("RET", ci=ci, o=o, api=api, ok=True, val={"k": "table"}, table=tab)
                 return
+            elif api == "sim:read":
+                # the harness looks into the simulated inverter directly (no library code involved)
+                loop.rec("RET", ci=ci, o=o, api=api, ok=True, val={"k": "raw", "b": list(world.sims[o].read_bytes(args[0], args[1]))})
+                return
             elif api == "attr":
                 res = getattr(world.invs[o], args[0])
             else:
